@@ -40,7 +40,7 @@ def DuoRun2 (cfg : Cfg) (x y aL aH : Nat) (B : Int) : Net → List (Nat × Int) 
        (i = x ∧ now ≤ B ∧
           ((c.s.st = .useToken ⟨now, none⟩ false ∧ c.tx = some (selfToken aL)) ∨
            (c.tx = some (statusRequestBytes aH aL) ∧
-              RplRun cfg x y aL aH (now + 2 * ((cfg.ce 5 : Nat) : Int) + (cfg.b33 : Nat) + 3 * (cfg.P : Nat)) n' rest) ∨
+              RplRun cfg x y aL aH .masterNotReady (now + 2 * ((cfg.ce 5 : Nat) : Int) + (cfg.b33 : Nat) + 3 * (cfg.P : Nat)) n' rest) ∨
            (DuoTx aL aH c ∧ DuoRun2 cfg x y aL aH B n' rest))))
 
 theorem duo_run2 {cfg : Cfg} (hok : cfg.Ok) (hP100 : cfg.P ≤ 100000) (G : Nat) (hG : cfg.slot + 3 * cfg.P ≤ G) (x y : Nat)
@@ -79,7 +79,8 @@ theorem duo_run2 {cfg : Cfg} (hok : cfg.Ok) (hP100 : cfg.P ≤ 100000) (G : Nat)
         have hnr : (hearAll stx.s.p.address (hd ++ rs.map telOf) r0).readyForRing = false := by
           rw [hearAll_count]
           exact witnessK_notReady _ (by have := d.aL_lt; omega) r0 hr0 _ hcnt
-        exact reply_run hok G hG i y now r0 (hd ++ rs.map telOf) stx.s.p.address sty0.s.p.address hnr rest n' (upSt stx c) sty
+        exact reply_run hok G hG i y now r0 (hd ++ rs.map telOf) stx.s.p.address sty0.s.p.address .masterNotReady
+          (fun s hs => listenReport_notReady s _ (by rw [hs]; exact hnr)) rest n' (upSt stx c) sty
           coll now (.inl ⟨hd, dn, rs, lY, hq0, rfl⟩) hlen' e1 haH hrest
       · refine .inr (.inr ⟨?_, ?_⟩)
         · rw [← haH]; exact htx
